@@ -119,11 +119,12 @@ def rm_path(tree, names):
     return t
 
 
-def observe(ctx: fw.Ctx, hists):
+def observe(ctx: fw.Ctx, hists, count_case: bool = True):
     for h in hists:
         if h.parse_error:
             continue
-        ctx.case({"doc": h.text, "ops": [list(r.op) for r in h.recs]}, any(r.result == "ok" for r in h.recs))
+        if count_case:
+            ctx.case({"doc": h.text, "ops": [list(r.op) for r in h.recs]}, any(r.result == "ok" for r in h.recs))
         for r in h.recs:
             path = r.op[1]
             if not path.startswith("@"):
